@@ -42,7 +42,8 @@ func (node *tagForNode) Execute(ctx *ExecutionContext, writer TemplateWriter) (f
 	// Register loopInfo in public context
 	forCtx.Private["forloop"] = loopInfo
 
-	obj, err := node.objectEvaluator.Evaluate(forCtx)
+	// The sequence is evaluated in the enclosing scope (forloop is still the outer loop there)
+	obj, err := node.objectEvaluator.Evaluate(ctx)
 	if err != nil {
 		return err
 	}
